@@ -4,6 +4,13 @@
 # Control file ($GITFAULT_CTL): one rule per line "<subcommand> <n> <before|after>"; a rule is
 # consumed when it fires.
 ctl="${GITFAULT_CTL:-/nonexistent}"
+# Backdating: while the file $GITFAULT_CTL.backdate exists, commits are made with the committer
+# and author date it holds (seconds since the epoch), so that the backend's retention rule
+# (age of the commit that last touched a version file) can be exercised without waiting 180 days.
+if [ "$1" = "commit" ] && [ -f "$ctl.backdate" ]; then
+  d=$(cat "$ctl.backdate")
+  export GIT_COMMITTER_DATE="@$d +0000" GIT_AUTHOR_DATE="@$d +0000"
+fi
 if [ -f "$ctl" ]; then
   i=0
   while read -r sub n when; do
